@@ -1719,7 +1719,26 @@ func (x *TX) inlineHelper(c *ssa.Call, callee *ssa.Function, args []*Term, plain
 	} else {
 		var succ []*ssa.Return
 		nErr := 0
+		commaOK := false
+		if sig := callee.Signature.Results(); sig.Len() >= 2 {
+			if b, ok := sig.At(sig.Len() - 1).Type().Underlying().(*types.Basic); ok && b.Kind() == types.Bool {
+				commaOK = true
+			}
+		}
 		for _, r := range rets {
+			if commaOK {
+				// (value…, ok bool): the exit with ok == true is the success exit
+				k, isConst := r.Results[len(r.Results)-1].(*ssa.Const)
+				if !isConst || k.Value == nil {
+					return nil
+				}
+				if constant.BoolVal(k.Value) {
+					succ = append(succ, r)
+				} else {
+					nErr++
+				}
+				continue
+			}
 			switch x.p.exitKind(cx, r) {
 			case "error":
 				nErr++
@@ -1734,7 +1753,7 @@ func (x *TX) inlineHelper(c *ssa.Call, callee *ssa.Function, args []*Term, plain
 		}
 		ret = succ[0]
 		if nErr > 0 {
-			if c == nil || len(ret.Results) < 2 || !valueUsesBehindErrCheck(c) {
+			if c == nil || len(ret.Results) < 2 || !valueUsesBehindErrCheck(c, commaOK) {
 				return nil
 			}
 			keepErr = true
@@ -1775,7 +1794,7 @@ func (p *Prog) newHelper(callee *ssa.Function) bool {
 // valueUsesBehindErrCheck: call c returns (values…, error); its error component is
 // tested against nil by a branch, and every use of the value components is dominated by
 // the successor on which the error is nil.
-func valueUsesBehindErrCheck(c *ssa.Call) bool {
+func valueUsesBehindErrCheck(c *ssa.Call, commaOK bool) bool {
 	tup, ok := c.Type().(*types.Tuple)
 	if !ok || tup.Len() < 2 {
 		return false
@@ -1802,7 +1821,29 @@ func valueUsesBehindErrCheck(c *ssa.Call) bool {
 		return false
 	}
 	var okSucc *ssa.BasicBlock
-	if refs := errX.Referrers(); refs != nil {
+	if refs := errX.Referrers(); refs != nil && commaOK {
+		// `if ok {…}` / `if !ok {…}`
+		var visit func(v ssa.Value, pos bool, refs []ssa.Instruction)
+		visit = func(v ssa.Value, pos bool, refs []ssa.Instruction) {
+			for _, r := range refs {
+				switch r := r.(type) {
+				case *ssa.If:
+					slot := 1
+					if pos {
+						slot = 0
+					}
+					if s := r.Block().Succs[slot]; len(s.Preds) == 1 {
+						okSucc = s
+					}
+				case *ssa.UnOp:
+					if r.Op == token.NOT && r.Referrers() != nil {
+						visit(r, !pos, *r.Referrers())
+					}
+				}
+			}
+		}
+		visit(errX, true, *refs)
+	} else if refs != nil {
 		for _, r := range *refs {
 			bo, ok := r.(*ssa.BinOp)
 			if !ok || (bo.Op != token.NEQ && bo.Op != token.EQL) {
